@@ -217,7 +217,7 @@ DSp(nm, lw, mp, sk, sl, ms) == [names |-> nm, lws |-> lw, maxpairs |-> mp, stack
 
 QuickLabelSpaces == { <<FullAlphabet, 3>>,
                       <<{"n", "a", "c", "W", "s", "3", "5"}, 5>>,          \* LW + stacking with both decorations
-                      <<{"n", "a", "B", "P", "h", "7"}, 6>> }               \* n7BPha needs length 6
+                      <<{"n", "a", "B", "P", "h", "7"}, 5>> }               \* (n7BPha, length 6: thorough)
 QuickListingSpaces == { LSp(UnitKinds, TabKinds, LabelKinds, {"none"}, 1),   \* every line template once
                         LSp({"plain", "few4", "nonint", "empty"}, {"three", "two"}, {"lw", "unknown", "empty"}, {"none"}, 2) }
 QuickDssrSpaces == { DSp(NameKinds, LwKinds, 1, {"exact"}, 0, 0),            \* every pair template once
@@ -227,6 +227,7 @@ QuickDssrSpaces == { DSp(NameKinds, LwKinds, 1, {"exact"}, 0, 0),            \* 
 
 ThoroughLabelSpaces == QuickLabelSpaces \cup
                        { <<FullAlphabet, 4>>,
+                         <<{"n", "a", "B", "P", "h", "7"}, 6>>,
                          <<{"c", "T", "W", "h", "s", "n", "a"}, 5>>,
                          <<{"n", "a", "B", "P", "h", "R", "7", "0"}, 6>>,
                          <<{"n", "a", "c", "T", "W", "s", "B", "P", "h", "5"}, 6>> }
